@@ -279,6 +279,7 @@ func (vm *Vm) runCatch(ctx context.Context, b []byte) ([]byte, error) {
 		}
 		logg.InfoCtxf(ctx, "catch!", "flag", sig, "sym", sym, "target", actualSym, "mode", mode)
 		sym = actualSym
+		vm.Reset()
 		bh, err := vm.rs.GetCode(ctx, sym)
 		if err != nil {
 			return b, err
